@@ -308,6 +308,73 @@ def h_precedence(sx):
         shutil.rmtree(home, ignore_errors=True)
 
 
+def h_two_files(sx):
+    """Config files at two depths at once: the documented search order is 1. current working directory, 2. $HOME -
+    a per-project file wins over the personal one, which wins over the built-in default; command line wins over both."""
+    from behave.configuration import Configuration
+    opts = option_model()
+    dests = [o["dest"] for o in opts]
+    tmp = tempfile.mkdtemp(prefix="c20-")
+    home = tempfile.mkdtemp(prefix="c20h-")
+    cwd = os.getcwd()
+    old_home = os.environ.get("HOME")
+    try:
+        k = sx.choice("option", list(range(len(opts))))
+        o = opts[k if isinstance(k, int) else k.concretize()]
+        d = o["dest"]
+        in_proj, in_home = sx.bool("in_project_file"), sx.bool("in_home_file")
+        home_name = ".behaverc" if sx.bool("home_file_is_behaverc") else "behave.ini"
+        exp = None
+        vals = SCALAR_VALUES.get(d)
+        esc = lambda v: v.replace("%", "%%") if d not in ("logging_format", "logging_datefmt") else v
+        if in_home:
+            hv = sx.bool("home_value") if o["kind"] == "flag" else None
+            with open(os.path.join(home, home_name), "w") as f:
+                f.write("[behave]\n%s = %s\n[behave.userdata]\nwho = personal\n" % (d, ("true" if hv else "false") if o["kind"] == "flag" else esc(vals[1])))
+            exp = bool(hv) if o["kind"] == "flag" else vals[1]
+        if in_proj:
+            pv = sx.bool("project_value") if o["kind"] == "flag" else None
+            with open(os.path.join(tmp, "behave.ini"), "w") as f:
+                f.write("[behave]\n%s = %s\n[behave.userdata]\nwho = project\n" % (d, ("true" if pv else "false") if o["kind"] == "flag" else esc(vals[0])))
+            exp = bool(pv) if o["kind"] == "flag" else vals[0]
+        _fresh_class_state()
+        os.chdir(tmp)
+        os.environ["HOME"] = home
+        try:
+            cfg = Configuration([])
+        except SystemExit as e:
+            sx.check(False, "C20.configuration-accepted", detail={"dest": d, "exit": repr(e)})
+            return {"dest": d, "exit": True}
+        os.chdir(cwd)
+        shutil.rmtree(tmp, ignore_errors=True)
+        shutil.rmtree(home, ignore_errors=True)
+        tmp2, home2 = tempfile.mkdtemp(prefix="c20-"), tempfile.mkdtemp(prefix="c20h-")
+        try:
+            base = _snapshot(_build(tmp2, home2, None, []), dests)
+        finally:
+            shutil.rmtree(tmp2, ignore_errors=True)
+            shutil.rmtree(home2, ignore_errors=True)
+        got = _snapshot(cfg, dests)
+        want = _norm(d, exp) if exp is not None else base[d]
+        det = {"dest": d, "in_project_file": bool(in_proj), "in_home_file": bool(in_home), "home_file": home_name}
+        sx.check(got[d] == want, "C20.project-file>home-file>default", detail=dict(det, got=repr(got[d]), expected=repr(want), default=repr(base[d])))
+        who = "project" if in_proj else "personal" if in_home else None
+        sx.check(cfg.userdata.get("who") == who, "C20.project-file>home-file>default",
+                 detail=dict(det, userdata=repr(dict(cfg.userdata)), expected_who=who))
+        for x in dests:
+            if x != d:
+                sx.check(got[x] == base[x], "C20.untouched-options-keep-defaults", detail=dict(det, other=x, got=repr(got[x]), default=repr(base[x])))
+        return {"dest": d, "value": repr(got[d]), "who": cfg.userdata.get("who")}
+    finally:
+        os.chdir(cwd)
+        if old_home is None:
+            os.environ.pop("HOME", None)
+        else:
+            os.environ["HOME"] = old_home
+        shutil.rmtree(tmp, ignore_errors=True)
+        shutil.rmtree(home, ignore_errors=True)
+
+
 def h_lists_paths_userdata(sx):
     """append options keep file order (+ cmdline values present); paths/outfiles relative to the config file; -D over file userdata;
     junit forces capture."""
@@ -407,6 +474,7 @@ def jobs(tier, seed):
         idx = rnd.sample(range(len(option_model())), 3)
         js.append(Job("precedence.triple.%02d" % t, "props.c20:h_precedence", {"indices": idx, "toml": t % 3 == 2},
                       reach=["C20.cmdline>file>default"], min_paths=8, cost=300, validate=20, closure=False))
+    js.append(Job("two-files", "props.c20:h_two_files", {}, reach=["C20.project-file>home-file>default"], min_paths=50, cost=1000, validate=30, closure=False))
     js.append(Job("lists-paths-userdata", "props.c20:h_lists_paths_userdata", {}, reach=["C20.file-paths-relative-to-config-file",
                   "C20.define-overrides-file-userdata", "C20.file-list-order-kept"], min_paths=16, cost=300, validate=30, closure=False))
     return js
